@@ -14,8 +14,10 @@ VERDICT = "c01_verdict"
 EXPLAIN = "c01_explain"
 CASES_PER_FILE = 60
 CASE_FILE_BYTES = 120000
-TIERS = {"quick": {"n": 1400}, "thorough": {"n": 16000}}
-RULE = ("class under test OrderedMultiDict (3/4) or its subclass urlutils.QueryParamDict (1/4); histories of 1-40 (thorough: 1-70) public operations over two live OrderedMultiDicts, 2-5 key tokens and "
+TIERS = {"quick": {"n": 1400}, "thorough": {"n": 16000, "exhaustive": True}}
+RULE = ("EXHAUSTIVE part: all histories of length <= 2 (quick, 600) / <= 3 (thorough, 14 424) over a fixed alphabet of 24 "
+        "core mutator calls on two keys and two values, each followed by items/reversed/counts/len/copy.copy/== ; "
+        "RANDOM part (n cases): class under test OrderedMultiDict (3/4) or its subclass urlutils.QueryParamDict (1/4); histories of 1-40 (thorough: 1-70) public operations over two live OrderedMultiDicts, 2-5 key tokens and "
         "3-6 value tokens (20 hashable objects of varied types + an unhashable list and dict as values), arguments rotated over list/tuple/generator/iterator/list-of-lists, dict/OrderedDict/"
         "mappingproxy/keys()+__getitem__ object, the other OMD, the object itself, kwargs; returned and passed "
         "containers are mutated after the call; ~5 % malformed calls (iterable ending in a non-pair / unhashable key, "
@@ -333,7 +335,61 @@ def _gen_case(rng, tier):
     return {"cls": rng.choice(["OMD", "OMD", "OMD", "QPD"]), "ops": ops}
 
 
+def _grid_alphabet():
+    """the core mutators over two keys (a = token 1, b = token 5) and two values (x = 10, y = 13)"""
+    a, b, x, y = 1, 5, 10, 13
+
+    def op(name, **kw):
+        d = {"r": 0, "op": name, "snap": True, "mut": True}
+        d.update(kw)
+        return d
+    return [
+        op("add", k=a, v=x), op("add", k=a, v=y), op("add", k=b, v=x),
+        op("setitem", k=a, v=y), op("setitem", k=b, v=y),
+        op("delitem", k=a), op("delitem", k=b),
+        op("pop", k=a, d=None), op("popall", k=b, d=x),
+        op("poplast", k=None, d=None), op("poplast", k=a, d=None), op("poplast", k=b, d=y),
+        op("popitem"), op("clear"),
+        op("update", a=["pairs", [[a, x], [a, y]], "iter"], kw=[]),
+        op("update", a=["pairs", [[b, y], [a, x]], "list"], kw=[]),
+        op("update", a=["map", [[a, y]], "dict"], kw=[[b, x]]),
+        op("update", a=["self"], kw=[]),
+        op("update_extend", a=["pairs", [[b, x], [a, y]], "gen"], kw=[]),
+        op("update_extend", a=["self"], kw=[]),
+        op("setdefault", k=a, d=None), op("setdefault", k=b, d=y),
+        op("addlist", k=a, vs=[x, y], it="iter"),
+        op("new", a=["self"], kw=[[a, x]]),
+    ]
+
+
+def _grid_tail():
+    """reads appended to every enumerated history"""
+    def rd(name, **kw):
+        d = {"r": 0, "op": name, "snap": False, "mut": True}
+        d.update(kw)
+        return d
+    return [rd("items", multi=False, how=0), rd("reversed"), rd("counts"), rd("len"),
+            rd("copy", r=1, c="CkCopyCopy", proto=2), rd("eq", w="other", ne=False, refl=False)]
+
+
+def grid(maxlen):
+    """ALL histories of length 1..maxlen over the alphabet, each followed by the read tail"""
+    import itertools
+    import copy
+    alpha = _grid_alphabet()
+    tail = _grid_tail()
+    tail[-2]["snap"] = True       # the copy is a non-read: snapshot both objects after it
+    for ln in range(1, maxlen + 1):
+        for combo in itertools.product(range(len(alpha)), repeat=ln):
+            yield {"cls": "OMD", "grid": list(combo), "ops": copy.deepcopy([alpha[i] for i in combo] + tail)}
+
+
+GRID_LEN = {"quick": 2, "thorough": 3}
+
+
 def generate(rng, tier, n):
+    for c in grid(GRID_LEN[tier]):
+        yield c
     for _ in range(n):
         yield _gen_case(rng, tier)
 
@@ -977,7 +1033,10 @@ def extra_evidence(results):
                     else:
                         diff += 1
                         first = first or {"ops": r["case"]["ops"][:8], "shadow": regs[reg], "observed": s[reg][0]}
-    return {"spec_validation": {"what": "independent python pair-list reference vs snapshots accepted by the Coq Spec",
+    ngrid = sum(1 for r in results if isinstance(r.get("case"), dict) and "grid" in r["case"])
+    return {"exhaustive_grid": {"alphabet": len(_grid_alphabet()), "cases": ngrid,
+                                "what": "every history of length <= L over the alphabet (L=2 quick, L=3 thorough)"},
+            "spec_validation": {"what": "independent python pair-list reference vs snapshots accepted by the Coq Spec",
                                 "snapshots_equal": same, "snapshots_different": diff, "first_difference": first}}
 
 
